@@ -763,9 +763,15 @@ class DHEat:
             family = socket.AF_INET if ip_version_preference[0] == 4 else socket.AF_INET6
 
         r = socket.getaddrinfo(host, 0, family, socket.SOCK_STREAM)
-        for address_family, socktype, _, _, addr in r:
-            if socktype == socket.SOCK_STREAM:
-                return int(address_family), str(addr[0])
+        candidates = [(int(address_family), str(addr[0])) for address_family, socktype, _, _, addr in r if socktype == socket.SOCK_STREAM]
+
+        # When two IP versions are given (i.e.: -46 or -64), the first one is preferred, exactly as SSH_Socket does for the audit's own connections.  (The sort is stable, so the resolver's order is kept within a family.)
+        if len(ip_version_preference) == 2:
+            preferred_family = int(socket.AF_INET if ip_version_preference[0] == 4 else socket.AF_INET6)
+            candidates.sort(key=lambda candidate: 0 if candidate[0] == preferred_family else 1)
+
+        if len(candidates) > 0:
+            return candidates[0]
 
         return int(socket.AF_UNSPEC), ''
 
